@@ -20,7 +20,7 @@ import ast
 import re as _re
 from typing import Any, Dict, List, Optional, Set, Tuple
 
-from .core import AnalysisError, Ctx, assigned_names, dotted, effective_body, names_in, norm, stmts_local, walk_local
+from .core import AnalysisError, Ctx, assigned_names, presence_test, dotted, effective_body, names_in, norm, stmts_local, walk_local
 from .paths import Path, enumerate_paths
 
 try:
@@ -35,6 +35,7 @@ class PathRec:
         self.emits: List[Dict[str, Any]] = []
         self.exit = "fall"
         self.problems: List[str] = []
+        self.presence: List[Tuple[str, bool]] = []
         self.cur_assigns: List[Dict[str, Any]] = []
         self.trace: List[str] = []
 
@@ -43,6 +44,10 @@ class PathRec:
 
     def has(self, text: str, outcome: bool) -> bool:
         return (text, outcome) in self.conds
+
+    def absent(self, name: str) -> bool:
+        """the path took the `name is absent` side of a presence test (`if name:` false, `name is None` true, ...)"""
+        return (name, False) in self.presence
 
 
 class AnnotateModel:
@@ -375,6 +380,9 @@ class AnnotateModel:
             if kind == "cond":
                 c, o = ev[1], ev[2]
                 rec.conds.append((norm(c), o))
+                pt_ = presence_test(c, o)
+                if pt_:
+                    rec.presence.append(pt_)
                 rel = _cmp(c, {S, E, CUR})
                 if rel:
                     a, op, b = rel
